@@ -174,6 +174,77 @@ fn main() {
                 writeln!(out, "#stat {} {}", k, v).unwrap();
             }
         }
+        // C03 / C18: cross-definition loading inside evolution families.
+        //  up:   bytes written by the definition current at i (at version i), loaded by the definition current at j >= i
+        //  down: bytes written by the definition current at n at an older version k, loaded by the definition current at k
+        "xver" => {
+            let mut stats: BTreeMap<String, u64> = BTreeMap::new();
+            let mut fams: BTreeMap<String, Vec<&Entry>> = BTreeMap::new();
+            for e in selected(&reg, &a) {
+                if let Some((f, _)) = &e.family {
+                    // group by family and by container shape (name without the version marker)
+                    let key = format!("{}|{}", f, e.name.replacen(&format!("_v{}", e.family.as_ref().unwrap().1), "_v#", 1));
+                    fams.entry(key).or_default().push(e);
+                }
+            }
+            for (key, members) in fams.iter() {
+                for ei in members.iter() {
+                    let i = ei.family.as_ref().unwrap().1;
+                    for ej in members.iter() {
+                        let j = ej.family.as_ref().unwrap().1;
+                        let mut r = Rng::new(name_seed(a.seed, key, (i * 100 + j) as u64));
+                        if i <= j {
+                            writeln!(out, "(ext @{} @{} {})\t(ok true)", ei.name, ej.name, i).unwrap();
+                            for _ in 0..a.cases {
+                                let (wire, _canon, res) = (ei.gen_enc)(&mut r, a.size, i);
+                                match res {
+                                    Ok(bytes) => {
+                                        writeln!(out, "(enc @{} {} {})\t(ok {})", ei.name, i, wire, hex(&bytes)).unwrap();
+                                        let reply = (ej.dec)(i, &bytes);
+                                        writeln!(out, "(dec @{} {} {})\t{}", ej.name, i, hex(&bytes), reply).unwrap();
+                                        *stats.entry("up".into()).or_default() += 1;
+                                        if !(reply.starts_with("(ok ") && reply.ends_with(" 0)")) {
+                                            writeln!(out, "!C03 old-data-rejected family={} saved_by=v{} at={} loaded_by=v{} value={} bytes={} got={}", key, i, i, j, wire, hex(&bytes), reply).unwrap();
+                                        }
+                                    }
+                                    Err(reply) => {
+                                        writeln!(out, "!C03 save-failed family={} v{} value={} got={}", key, i, wire, reply).unwrap();
+                                    }
+                                }
+                            }
+                        }
+                        if i > j && ei.tags.contains(&"downgradable") {
+                            writeln!(out, "(ext @{} @{} {})\t(ok true)", ei.name, ej.name, j).unwrap();
+                        }
+                        if i > j {
+                            // down: definition i writes version j, definition j reads it
+                            for _ in 0..a.cases {
+                                let (wire, _canon, res) = (ei.gen_enc)(&mut r, a.size, j);
+                                match res {
+                                    Ok(bytes) => {
+                                        writeln!(out, "(enc @{} {} {})\t(ok {})", ei.name, j, wire, hex(&bytes)).unwrap();
+                                        let reply = (ej.dec)(j, &bytes);
+                                        writeln!(out, "(dec @{} {} {})\t{}", ej.name, j, hex(&bytes), reply).unwrap();
+                                        *stats.entry("down".into()).or_default() += 1;
+                                        if ei.tags.contains(&"downgradable") && !(reply.starts_with("(ok ") && reply.ends_with(" 0)")) {
+                                            writeln!(out, "!C18 downgraded-data-rejected family={} written_by=v{} at={} loaded_by=v{} value={} bytes={} got={}", key, i, j, j, wire, hex(&bytes), reply).unwrap();
+                                        }
+                                    }
+                                    Err(reply) => {
+                                        // documented: Removed (not AbiRemoved) fields and later variants cannot be written at old versions
+                                        writeln!(out, "(enc @{} {} {})\t{}", ei.name, j, wire, reply).unwrap();
+                                        *stats.entry(format!("down-{}", reply)).or_default() += 1;
+                                    }
+                                }
+                            }
+                        }
+                    }
+                }
+            }
+            for (k, v) in stats {
+                writeln!(out, "#stat {} {}", k, v).unwrap();
+            }
+        }
         // C04 direct oracle: bulk containers vs element-wise encoding
         "bulk" => {
             let mut n = 0u64;
